@@ -9,3 +9,31 @@ pub mod rsim;
 pub mod traffic;
 pub mod watchdog;
 pub mod props;
+
+/// A logger that formats every record into a scratch buffer and drops it: with it installed the arguments of the
+/// library's log statements are evaluated, as they are in an application that logs.
+struct SinkLogger;
+
+impl log::Log for SinkLogger {
+    fn enabled(&self, _: &log::Metadata) -> bool {
+        true
+    }
+    fn log(&self, record: &log::Record) {
+        use std::fmt::Write;
+        thread_local!(static BUF: std::cell::RefCell<String> = std::cell::RefCell::new(String::new()));
+        BUF.with(|b| {
+            if let Ok(mut b) = b.try_borrow_mut() {
+                b.clear();
+                let _ = write!(b, "{}", record.args());
+            }
+        });
+    }
+    fn flush(&self) {}
+}
+
+pub fn install_sink_logger() {
+    static LOGGER: SinkLogger = SinkLogger;
+    if log::set_logger(&LOGGER).is_ok() {
+        log::set_max_level(log::LevelFilter::Trace);
+    }
+}
